@@ -201,15 +201,23 @@ func checkC09(c *Ctx) *report.Result {
 					want []bitSpec
 				}{"register 4000-5FFF", []wr{{0x4000, v}}, []bitSpec{src(s, 0), src(s, 1), src(s, 2), src(s, 3)}})
 			}
+			// every case twice: with the enable write last (controllers that cache the RAM bank recompute it then), and
+			// with the gate closed and reopened after the bank was selected (the selection is independent of the gate)
+			for _, cs0 := range cases {
+				cases = append(cases, struct {
+					tag  string
+					ws   []wr
+					want []bitSpec
+				}{cs0.tag + ", then the gate closed and reopened", append(append([]wr{}, cs0.ws...), wr{0x0000, ai.NewConstInt(8, false, 0x00)}), cs0.want})
+			}
 			for _, cs := range cases {
-				// the enable write comes last so that controllers that cache the RAM bank recompute it
 				ven := ai.NewConstInt(8, false, 0x0A)
 				var st *ai.State
 				first := true
 				for _, w := range append(cs.ws, wr{0x0000, ven}) {
 					var ev *DecEval
 					if first {
-						ev = c.evalDecoder(true, w.addr, w.addr, env.setup(8, banks, setEn(false)), w.v)
+						ev = c.evalDecoder(true, w.addr, w.addr, env.setup(8, banks, setEn(strings.Contains(cs.tag, "gate closed and reopened"))), w.v)
 						first = false
 					} else {
 						ev = c.evalDecoderFrom(st, true, w.addr, w.addr, nil, w.v)
